@@ -2,6 +2,7 @@ package rules
 
 import (
 	"go/ast"
+	"go/token"
 	"go/types"
 	"golang.org/x/tools/go/types/typeutil"
 	"sort"
@@ -47,6 +48,8 @@ func runC15(p *eng.Prog, r *eng.Report, tier string) {
 	c15EveryPacketHandled(c, "C15.19")
 	c15RoutingEntryNotReplaced(c, "C15.20")
 	c15OnlyOwnRouteWithdrawn(c, "C15.21")
+	c15WakeUpOnlyOpenReaders(c, "C15.22")
+	c15EverySentPacketCounted(c, "C15.23")
 	c15OpenRegistered(c)
 	c15BlockBounded(c)
 	// C15.2 the session id that selects the stream is the payload's own sid
@@ -1096,4 +1099,59 @@ func c15OnlyOwnRouteWithdrawn(c *cx, id string) {
 		}
 	}
 	c.r.Floor(id, "withdrawals of a route in ibb.open", n, 1)
+}
+
+// c15WakeUpOnlyOpenReaders (C15.22 / C06.26): Close closes the reader's wake-up
+// channel (once, under readLock, behind the readClosed flag, F20). A data
+// packet that the serve loop looked up just before the stream left the routing
+// table is still handled afterwards: the wake-up send in handlePayload is
+// dominated by the test that the read side is not closed - a send on the
+// closed channel panics the serve goroutine.
+func c15WakeUpOnlyOpenReaders(c *cx, id string) {
+	f := c.fn(id, "ibb", "handlePayload")
+	if f == nil {
+		return
+	}
+	n := 0
+	for _, op := range chanOps(f) {
+		if op.kind != "send" || op.class != "ibb.Conn.readReady" {
+			continue
+		}
+		n++
+		c.domAny(id, f, op.node, "wake-up of the reader", []string{"!*.readClosed"})
+	}
+	c.r.Floor(id, "wake-up sends in handlePayload", n, 1)
+}
+
+// c15EverySentPacketCounted (C15.23): packets are numbered consecutively: the
+// writer's counter advances for every packet that was handed to the session
+// without an error. Every return of stanzaWriter.Write that is not an error
+// return has passed `seq++` (an early `return len(p), e.Encode(...)` for one
+// carrier skips the increment and the next packet repeats the number).
+func c15EverySentPacketCounted(c *cx, id string) {
+	f := c.fn(id, "ibb", "(*stanzaWriter).Write")
+	if f == nil {
+		return
+	}
+	g := f.Graph()
+	isInc := func(q eng.Point, nd ast.Node) bool {
+		for _, w := range f.Writes() {
+			if w.Stmt == nd && w.Tok == token.INC {
+				if k, ok := f.FieldClass(w.LHS); ok && k == "ibb.stanzaWriter.seq" {
+					return true
+				}
+			}
+		}
+		return false
+	}
+	n := 0
+	for _, rs := range g.Returns {
+		if g.RetKindOf(rs) == eng.RetError {
+			continue
+		}
+		n++
+		rp, _ := g.Where(rs)
+		c.r.Check(id, f, "packet counted before Write reports success", "O: every return of stanzaWriter.Write whose error may be nil has passed seq++", rs.Pos(), g.MustPassBefore(g.Entry(), rp, isInc, nil), "a packet can be sent without advancing the sequence number: the next packet repeats it and is refused")
+	}
+	c.r.Floor(id, "non-error returns of stanzaWriter.Write", n, 1)
 }
